@@ -408,6 +408,7 @@ def check(prog: Program, tier: str) -> Result:
     res.floor("section_variants", 17)
 
     _check_optional_values(prog, res, sec_tabs)
+    _check_shapes(prog, res)
     _check_loader(prog, res, lfi, sec_tabs)
     _check_roundtrip(prog, res, sec_tabs)
     _check_enums(prog, res, wfi, lfi)
@@ -477,6 +478,54 @@ def _optional_setter_params(prog: Program):
             if "None" in ann or "Optional" in ann or (isinstance(d, ast.Constant) and d.value is None):
                 out.add((name, p.arg))
     return out
+
+
+def _array_depth(schema_prop) -> int:
+    d = 0
+    while isinstance(schema_prop, dict) and schema_prop.get("type") == "array":
+        d += 1
+        schema_prop = schema_prop.get("items")
+    return d
+
+
+def _check_shapes(prog: Program, res: Result):
+    """K11 (sibling agreement): where a geometry class writes two attributes under keys of the same nested-array shape (lists of
+    polygons) and its constructor accepts the flat spelling for one of them - it wraps a single polygon into a list, so that
+    what is written has the schema's depth - it must do so for the other one too.  The constructor itself says which spellings the
+    API accepts; an attribute that is stored as given is written with one level missing when the flat spelling is used."""
+    n = 0
+    for mem, (cls, schema_name, setter) in sorted(GEOM_CLASSES.items()):
+        cq = f"{GEO}.{cls}"
+        ti = prog.method(cq, "to_input")
+        init = prog.method(cq, "__init__")
+        if ti is None or init is None:
+            continue
+        props = prog.schemas[schema_name].get("properties", {})
+        tab = to_input_table(ti)
+        by_depth = {}
+        for key, (val, cond) in tab.items():
+            d = _array_depth(props.get(key))
+            src = attr_chain(val) if isinstance(val, ast.Attribute) else None
+            if d >= 3 and src and src.startswith("self."):
+                by_depth.setdefault(d, []).append((key, src, val))
+        for d, lst in by_depth.items():
+            treat = {}
+            for key, src, val in lst:
+                wraps = [a for a in ast.walk(init.node) if isinstance(a, ast.Assign) and any(attr_chain(t) == src for t in a.targets) and isinstance(a.value, ast.List) and len(a.value.elts) == 1
+                         and isinstance(a.value.elts[0], ast.Name) and a.value.elts[0].id in init.params()]
+                guarded = [a for a in wraps if any(isinstance(g, ast.If) and any(a is x for b_ in g.body + g.orelse for x in ast.walk(b_)) and "isinstance" in ast.unparse(g.test) for g in ast.walk(init.node))]
+                treat[key] = bool(guarded)
+            if any(treat.values()):
+                for key, src, val in lst:
+                    n += 1
+                    res.ob("K11", f"[geometric_constraints:{mem}] '{key}' (depth {d} in {schema_name}): a single polygon given flat is wrapped into a list, as for its sibling keys", treat[key], prog.loc(init, init.node))
+                    if not treat[key]:
+                        sib = next(k for k, v in treat.items() if v)
+                        res.violation("K11", f"{mem}|shape|{key}", prog.loc(ti, val), cq,
+                                      f"{cls} accepts a single polygon for '{sib}' (it wraps it into a list) but stores '{key}' as given: the flat spelling the API accepts is written with one "
+                                      f"nesting level missing, and {schema_name} (depth {d}) rejects the file the tool wrote")
+    res.count("nested_shape_keys", n)
+    res.floor("nested_shape_keys", 2)
 
 
 def _check_optional_values(prog: Program, res: Result, sec_tabs):
@@ -1196,6 +1245,9 @@ def _check_enums(prog: Program, res: Result, wfi, lfi):
 
 
 VARIANTS = [
+    Variant("a single no-go polygon is no longer wrapped into a list by the constrained geometry (seeded C17_i)", "break",
+            [(GEO, "        if len(no_go_boundaries) > 0 and isinstance(no_go_boundaries[0][0], (int, float)):\n            self.no_go_boundaries = [no_go_boundaries]\n        else:\n            self.no_go_boundaries = no_go_boundaries",
+              "        self.no_go_boundaries = no_go_boundaries")], "K11"),
     Variant("design schema: max_eft / min_eft bounded below by 0 (seeded C17_h)", "break",
             [("schema:design.schema.json", '    "min_eft": {\n      "type": "number",\n', '    "min_eft": {\n      "type": "number",\n      "minimum": 0,\n')], "K10"),
     Variant("the loader passes the fluid section key by key and leaves the temperature out (seeded C17_g)", "break",
